@@ -35,6 +35,8 @@ structure ProcEng where
   -- terminal verdict, how many attempts were then still before their connect step (they may still take it)
   -- traces offered per run since its last default-data harvest: (run, kind 0 regular / 1 force-persisted / 2 synthetics, duration, id)
   trOffers : List (String × Nat × Int × Nat) := []
+  -- every (run, command, id) that appeared in a request the IMPLEMENTATION made
+  implSent : List (String × String × Nat) := []
   preLaunched : List (String × Nat) := []
   preAnswered : List (String × Nat) := []
   allowance : List (String × Nat) := []
@@ -355,7 +357,8 @@ def checkImplReqs (st : ProcEng) (reqs : List ImplReq) : ProcEng × List String 
           ({ st with trOffers := st.trOffers.filter (·.1 != q.run) },
            if bad.isEmpty then [] else [s!"C06 proc: the traces sent for run {q.run} are not the longest-running of each kind offered in the period (kind {(bad.map (·.1))}: 0 regular, 1 force-persisted, 2 synthetics)"])
         else (st, [])
-      ({ st with sends := sends }, fails ++ f1 ++ f2 ++ f3 ++ f4 ++ f5 ++ f6 ++ f7 ++ f8 ++ f9)) (st, [])
+      ({ st with sends := sends, implSent := st.implSent ++ ids.filter (fun k => !st.implSent.contains k) },
+       fails ++ f1 ++ f2 ++ f3 ++ f4 ++ f5 ++ f6 ++ f7 ++ f8 ++ f9)) (st, [])
 
 /-- ids of a run that left the model's containers without being sent: evicted by capacity or given up -/
 def noteEvictions (st : ProcEng) (run : String) (before : List (String × Nat)) (incoming : List (String × Nat)) : ProcEng :=
@@ -505,7 +508,7 @@ def procStep (st0 : ProcEng) (t : Tokens) (impl : Option String) : ProcEng × St
   | none => (st, out)
   | some line =>
     -- bookkeeping that follows the ops
-    let st := if op == "init" then { st with evicted := [], noRetry := [], sends := [], runInfo := [], terminal := [], needConnect := [], lastAttempt := [], qOffered := [], qAcked := [], runRules := [], lossless := true, tainted := [], preLaunched := [], preAnswered := [], allowance := [], trOffers := [] } else st
+    let st := if op == "init" then { st with evicted := [], noRetry := [], sends := [], runInfo := [], terminal := [], needConnect := [], lastAttempt := [], qOffered := [], qAcked := [], runRules := [], lossless := true, tainted := [], preLaunched := [], preAnswered := [], allowance := [], trOffers := [], implSent := [] } else st
     let o : Outcome := parseOutcome (tokStr t 5)
     let st := match picked with
       | some r => if r.cat == .preconnect then { st with preAnswered := cntSet st.preAnswered r.app (cntGet st.preAnswered r.app + 1) } else st
@@ -613,6 +616,10 @@ def procStep (st0 : ProcEng) (t : Tokens) (impl : Option String) : ProcEng × St
         (if overs.isEmpty then [] else [s!"C01 proc: the final flush re-delivers what was already acknowledged: {overs.take 2 |>.map (fun e => e.1.1 ++ "/" ++ e.1.2)}"]) ++
         (if lost.isEmpty then [] else [s!"C01 proc: metric contributions were lost or altered although the collector accepted everything: {lost.take 2 |>.map (fun e => e.1.1 ++ "/" ++ e.1.2)}"]) ++
         (if missing.isEmpty then [] else [s!"C01 proc: accepted data was neither acknowledged, nor still in flight, nor in the final flush: {missing.take 3 |>.map (fun (k : String × String × Nat) => k.1 ++ "/" ++ k.2.1 ++ "/" ++ toString k.2.2)}"]) ++
+        -- ... and, judged on the implementation's own requests alone: what survived the capacity limits appears in SOME request
+        (let never := st.offered.filter (fun (k : String × String × Nat) => liveRuns.contains k.1 && !st.evicted.contains k &&
+                                          !st.implSent.contains k && !finalIds.contains k)
+         if never.isEmpty then [] else [s!"C01 proc: accepted data that survived the capacity limits never appeared in any request: {never.take 3 |>.map (fun (k : String × String × Nat) => k.1 ++ "/" ++ k.2.1 ++ "/" ++ toString k.2.2)}"]) ++
         (if (kvGet (tokenize line) "returned") == some "1" then [] else ["C11 shutdown: the final flush did not return"]) ++
         (if (kvGet (tokenize line) "early") == some "1" then ["C11 shutdown: the final flush started before the processor loop had stopped (it was still aggregating a transaction)"] else [])
       else []
